@@ -2,6 +2,8 @@ package main
 
 import (
 	"fmt"
+	"os"
+	"sort"
 	"go/token"
 	"go/types"
 	"strings"
@@ -17,7 +19,8 @@ type effect struct {
 }
 
 var purePkgs = map[string]bool{"strings": true, "strconv": true, "fmt": true, "errors": true, "unicode": true,
-	"unicode/utf8": true, "math": true, "bytes": true, "net/url": true, "reflect": true, "path": true, "log": true}
+	"unicode/utf8": true, "math": true, "bytes": true, "net/url": true, "reflect": true, "path": true, "log": true, "path/filepath": true,
+	"math/bits": true, "context": true, "os": true, "io/fs": true, "time": true}
 
 func shapeOf(addr ssa.Value) *Loc {
 	switch a := addr.(type) {
@@ -44,24 +47,25 @@ func shapeOf(addr ssa.Value) *Loc {
 }
 
 func (e *Enc) effectOf(fn *ssa.Function) *effect {
+	if c := e.db.byFunc[fname(fn)]; c != nil && c.Pure {
+		return &effect{names: map[string]bool{}}
+	}
+	return e.bodyEffect(fn)
+}
+
+// bodyEffect infers the set of heap arrays fn may write (transitively), ignoring fn's own `pure` claim. It is the
+// least fixed point over the call graph: a recursive edge to a function whose effect is being computed contributes
+// nothing by itself; results that depended on such an edge are not cached.
+func (e *Enc) bodyEffect(fn *ssa.Function) *effect {
 	if ef, ok := e.effects[fn]; ok {
-		if ef == nil { // cycle
-			return &effect{all: true}
+		if ef == nil { // in progress: recursive edge
+			e.effTaint = true
+			return &effect{names: map[string]bool{}}
 		}
 		return ef
 	}
-	if c := e.db.byFunc[fname(fn)]; c != nil && c.Pure {
-		ef := &effect{names: map[string]bool{}}
-		e.effects[fn] = ef
-		return ef
-	}
-	pkgPath := ""
-	if fn.Pkg != nil {
-		pkgPath = fn.Pkg.Pkg.Path()
-	} else if fn.Object() != nil && fn.Object().Pkg() != nil {
-		pkgPath = fn.Object().Pkg().Path()
-	}
-	if fn.Blocks == nil || !strings.HasPrefix(pkgPath, "github.com/PapaCharlie/go-restli") {
+	pkgPath := pkgPathOf(fn)
+	if fn.Blocks == nil || !strings.HasPrefix(pkgPath, modRoot) {
 		ef := &effect{all: true}
 		if purePkgs[pkgPath] {
 			ef = &effect{names: map[string]bool{}}
@@ -69,29 +73,33 @@ func (e *Enc) effectOf(fn *ssa.Function) *effect {
 		e.effects[fn] = ef
 		return ef
 	}
-	if false {
-		ef := &effect{all: true}
-		if fn.Pkg != nil && purePkgs[fn.Pkg.Pkg.Path()] {
-			ef = &effect{names: map[string]bool{}}
-		}
-		if fn.Pkg == nil && fn.Object() != nil && fn.Object().Pkg() != nil && purePkgs[fn.Object().Pkg().Path()] {
-			ef = &effect{names: map[string]bool{}}
-		}
-		e.effects[fn] = ef
-		return ef
-	}
 	e.effects[fn] = nil
+	savedTaint := e.effTaint
+	e.effTaint = false
 	ef := &effect{names: map[string]bool{}}
 	for _, b := range fn.Blocks {
 		for _, in := range b.Instrs {
 			e.instrEffect(in, ef)
 		}
 	}
-	e.effects[fn] = ef
+	if e.effTaint && e.effDepth > 0 {
+		delete(e.effects, fn) // depends on an unfinished caller: recompute when asked again
+	} else {
+		e.effects[fn] = ef
+	}
+	e.effTaint = e.effTaint || savedTaint
 	return ef
 }
 
 func (e *Enc) instrEffect(in ssa.Instruction, ef *effect) {
+	if os.Getenv("GOVC_DEBUG_EFFECT") != "" {
+		was := ef.all
+		defer func() {
+			if ef.all && !was {
+				fmt.Fprintf(os.Stderr, "effect-all: %s in %s: %v\n", e.prog.Fset.Position(in.Pos()), in.Parent(), in)
+			}
+		}()
+	}
 	switch in := in.(type) {
 	case *ssa.Next:
 		if rg, ok := in.Iter.(*ssa.Range); ok && mapInfoOf(rg.X.Type()).ok {
@@ -100,8 +108,8 @@ func (e *Enc) instrEffect(in ssa.Instruction, ef *effect) {
 			arrSorts[n] = "(Array " + mapInfoOf(rg.X.Type()).ksort + " Bool)"
 		}
 	case *ssa.Store:
-		if al, ok := in.Addr.(*ssa.Alloc); ok && !al.Heap {
-			return // local cell
+		if rootAlloc(in.Addr) != nil {
+			return // object allocated by this very invocation: not a cell of the caller's pre-state
 		}
 		writeNames(shapeOf(in.Addr), ef.names)
 	case *ssa.MapUpdate:
@@ -111,6 +119,12 @@ func (e *Enc) instrEffect(in ssa.Instruction, ef *effect) {
 	case ssa.CallInstruction:
 		c := in.Common()
 		if c.IsInvoke() {
+			if c.Method.Pkg() != nil && ufIfacePkgs[c.Method.Pkg().Path()] {
+				return
+			}
+			if e.db.pureIface[ifaceMethodKey(c.Method)] {
+				return
+			}
 			ef.all = true
 			return
 		}
@@ -148,7 +162,9 @@ func (e *Enc) instrEffect(in ssa.Instruction, ef *effect) {
 					}
 				}
 			}
+			e.effDepth++
 			ce := e.effectOf(callee)
+			e.effDepth--
 			if ce.all {
 				ef.all = true
 			}
@@ -156,7 +172,9 @@ func (e *Enc) instrEffect(in ssa.Instruction, ef *effect) {
 				ef.names[n] = true
 			}
 		case *ssa.MakeClosure:
+			e.effDepth++
 			ce := e.effectOf(callee.Fn.(*ssa.Function))
+			e.effDepth--
 			if ce.all {
 				ef.all = true
 			}
@@ -164,6 +182,32 @@ func (e *Enc) instrEffect(in ssa.Instruction, ef *effect) {
 				ef.names[n] = true
 			}
 		default:
+			if lf := localClosure(c.Value); lf != nil {
+				// a function literal stored once in a local variable and called through it
+				e.effDepth++
+				ce := e.effectOf(lf)
+				e.effDepth--
+				if ce.all {
+					ef.all = true
+				}
+				for n := range ce.names {
+					ef.names[n] = true
+				}
+				return
+			}
+			if fld := pureFieldOf(c.Value); fld != "" && e.db.pureFields[fld] {
+				return
+			}
+			if callbackName(c.Value) != "" {
+				// `pure` means pure up to the function's own callbacks
+				owner := in.Parent()
+				for owner != nil {
+					if oc := e.db.byFunc[fname(owner)]; oc != nil && oc.Pure {
+						return
+					}
+					owner = owner.Parent()
+				}
+			}
 			ef.all = true
 		}
 	}
@@ -261,6 +305,26 @@ func (e *Enc) run() {
 	}
 	for _, b := range order {
 		e.block(b)
+	}
+	// a `pure` claim is checked against the inferred write set of the body
+	if e.con != nil && e.con.Pure {
+		ef := e.bodyEffect(e.fn)
+		ok := "true"
+		if ef.all || len(ef.names) > 0 {
+			ok = "false"
+		}
+		var ns []string
+		for n := range ef.names {
+			ns = append(ns, n)
+		}
+		sort.Strings(ns)
+		if len(ns) > 3 {
+			ns = ns[:3]
+		}
+		e.curBlock = e.fn.Blocks[0]
+		o := e.oblige("frame", "pure:writes="+strings.Join(ns, ","), e.fn.Pos(), ok)
+		o.Owned = true
+		e.cons = e.cons[:len(e.cons)-1] // a syntactic verdict: never assumed afterwards
 	}
 	// type invariant at every return
 	if len(e.tinv) > 0 && len(e.fn.Params) > 0 {
@@ -370,6 +434,57 @@ func (e *Enc) lookupType(s string) types.Type {
 					return types.NewPointer(o.Type())
 				}
 				return o.Type()
+			}
+		}
+	}
+	return nil
+}
+
+// localClosure resolves a called function value to the function literal it must be: a MakeClosure, or a load of a
+// local variable (possibly captured) that is assigned exactly once, with a MakeClosure.
+func localClosure(v ssa.Value) *ssa.Function {
+	switch x := v.(type) {
+	case *ssa.MakeClosure:
+		f, _ := x.Fn.(*ssa.Function)
+		return f
+	case *ssa.UnOp:
+		var cell ssa.Value = x.X
+		if fv, ok := cell.(*ssa.FreeVar); ok {
+			// captured variable: find the binding in the parent
+			par := fv.Parent().Parent()
+			if par == nil {
+				return nil
+			}
+			idx := -1
+			for i, f := range fv.Parent().FreeVars {
+				if f == fv {
+					idx = i
+				}
+			}
+			for _, b := range par.Blocks {
+				for _, in := range b.Instrs {
+					if mc, ok := in.(*ssa.MakeClosure); ok && mc.Fn == fv.Parent() && idx >= 0 {
+						cell = mc.Bindings[idx]
+					}
+				}
+			}
+		}
+		a, ok := cell.(*ssa.Alloc)
+		if !ok {
+			return nil
+		}
+		var src ssa.Value
+		n := 0
+		for _, r := range *a.Referrers() {
+			if s, ok := r.(*ssa.Store); ok && s.Addr == a {
+				n++
+				src = s.Val
+			}
+		}
+		if n == 1 {
+			if mc, ok := src.(*ssa.MakeClosure); ok {
+				f, _ := mc.Fn.(*ssa.Function)
+				return f
 			}
 		}
 	}
@@ -527,6 +642,76 @@ func (e *Enc) loopHeader(b *ssa.BasicBlock, li *loopInfo, fwd []*ssa.BasicBlock,
 	}
 	// template candidates over integer header phis
 	lenFns := e.lenTermFns(li)
+	// lengths of slices/strings defined before the loop and measured inside it (range loops over call results)
+	seenLen := map[ssa.Value]bool{}
+	for blk := range li.body {
+		for _, in := range blk.Instrs {
+			c, ok := in.(*ssa.Call)
+			if !ok {
+				continue
+			}
+			bi, ok := c.Call.Value.(*ssa.Builtin)
+			if !ok || bi.Name() != "len" {
+				continue
+			}
+			arg := c.Call.Args[0]
+			if seenLen[arg] {
+				continue
+			}
+			if ai, ok := arg.(ssa.Instruction); ok && li.body[ai.Block()] {
+				continue
+			}
+			if _, isParam := arg.(*ssa.Parameter); isParam {
+				continue
+			}
+			if _, known := e.vals[arg]; !known {
+				continue
+			}
+			seenLen[arg] = true
+			av := e.val(arg)
+			switch arg.Type().Underlying().(type) {
+			case *types.Slice:
+				lenFns = append(lenFns, lenFn{"len(" + exprText(arg) + ")", func(State) string { return av.c[2] }})
+			case *types.Basic:
+				if isString(arg.Type()) {
+					lenFns = append(lenFns, lenFn{"len(" + exprText(arg) + ")", func(State) string { return app("slen", av.c[0]) }})
+				}
+			}
+		}
+	}
+	// integer values computed before the loop and used as comparison bounds inside it (hoisted len(...) of range loops)
+	type boundTerm struct {
+		name, term string
+	}
+	var bounds []boundTerm
+	seenB := map[ssa.Value]bool{}
+	for blk := range li.body {
+		for _, in := range blk.Instrs {
+			bo, ok := in.(*ssa.BinOp)
+			if !ok {
+				continue
+			}
+			switch bo.Op {
+			case token.LSS, token.LEQ, token.GTR, token.GEQ:
+			default:
+				continue
+			}
+			for _, y := range []ssa.Value{bo.X, bo.Y} {
+				if seenB[y] || !isInt(y.Type()) {
+					continue
+				}
+				yi, ok := y.(ssa.Instruction)
+				if !ok || li.body[yi.Block()] {
+					continue
+				}
+				if _, known := e.vals[y]; !known {
+					continue
+				}
+				seenB[y] = true
+				bounds = append(bounds, boundTerm{exprText(y), e.val(y).c[0]})
+			}
+		}
+	}
 	type intTerm struct {
 		name string
 		f    func(sub map[ssa.Value]*Val, s State) string
@@ -542,6 +727,11 @@ func (e *Enc) loopHeader(b *ssa.BasicBlock, li *loopInfo, fwd []*ssa.BasicBlock,
 			name = phi.Name()
 		}
 		terms = append(terms, intTerm{name, func(sub map[ssa.Value]*Val, s State) string { return sub[phi].c[0] }})
+		for _, bd := range bounds {
+			bd := bd
+			add(name+"<"+bd.name, false, func(sub map[ssa.Value]*Val, s State) string { return app("<", sub[phi].c[0], bd.term) })
+			add(name+"<="+bd.name, false, func(sub map[ssa.Value]*Val, s State) string { return app("<=", sub[phi].c[0], bd.term) })
+		}
 		add(name+">=0", false, func(sub map[ssa.Value]*Val, s State) string { return app(">=", sub[phi].c[0], "0") })
 		for _, lf := range lenFns {
 			lf := lf
